@@ -62,7 +62,7 @@ type Contracts struct {
 	macros map[string]*Macro
 }
 
-var tagRe = regexp.MustCompile(`^\[([A-Z0-9 ,]+)\]\s*`)
+var tagRe = regexp.MustCompile(`^\[([A-Za-z0-9 ,]+)\]\s*`)
 
 func LoadContracts(repoDir string) (*Contracts, error) {
 	cs := &Contracts{byKey: map[string]*Contract{}, macros: map[string]*Macro{}}
@@ -904,7 +904,13 @@ func (x *Exec) specEnvFor(st *State, fn *ssa.Function, params []Value, results [
 	for i, fv := range fn.FreeVars {
 		idx := len(fn.Params) + i
 		if idx < len(params) {
-			// free variables are pointers to the captured variable unless captured by value
+			// a free variable is a pointer to the captured variable: the name denotes the variable
+			if pt, ok := fv.Type().Underlying().(*types.Pointer); ok {
+				if p, ok := params[idx].(VPtr); ok && p.Loc != nil {
+					env.vars[fv.Name()] = TV{env.loadLoc(p.Loc, pt.Elem()), pt.Elem()}
+					continue
+				}
+			}
 			env.vars[fv.Name()] = TV{params[idx], fv.Type()}
 		}
 	}
